@@ -71,8 +71,17 @@ def aml_sites(rng, th):
         progs.append(aml({"t": "Local", "n": n}))
     maxv = (1 << 28) - 1
     over = [maxv - 5, maxv - 4, maxv - 3, maxv, maxv + 1, maxv + 2, 1 << 29, 1 << 30, (1 << 31) - 1]
-    progs.append({"fam": "pkglen", "ns": over, "incl": True})
-    progs.append({"fam": "pkglen", "ns": over, "incl": False})
+    # lengths whose low 32 (or 28) bits look harmless: 2^32, 2^32 + small, k * 2^32, 2^40 + 4096, 2^63, 2^64 - 1 ...
+    wide = [1 << 31, (1 << 31) + 1, (1 << 32) - 1, 1 << 32, (1 << 32) + 1, (1 << 32) + 63, (1 << 32) + 4096, (1 << 32) + (1 << 27), 3 << 32,
+            (1 << 40) + 4096, (1 << 48) + 5, 1 << 63, (1 << 64) - 1, (1 << 64) - (1 << 28), (7 << 32) + maxv - 3, (1 << 36) + 64]
+    # (the self-inclusive form measures a body that exists in memory: below 2^63, where adding its own size cannot wrap)
+    progs.append({"fam": "pkglen", "ns": over, "incl": True, "wide": [vlib.le(v, 8) for v in wide if v < (1 << 63)]})
+    progs.append({"fam": "pkglen", "ns": over, "incl": False, "wide": [vlib.le(v, 8) for v in wide]})
+    for v in wide:
+        progs.append(aml({"t": "Field", "path": amlgen.chars("FLD0"), "access": "Any", "lock": "NoLock", "update": "Preserve",
+                          "fields": [{"k": "named", "name": amlgen.chars("F001"), "bits": 0, "bitsw": vlib.le(v, 8)}]}, tag="field_named_wide/%d" % v))
+        progs.append(aml({"t": "Field", "path": amlgen.chars("FLD0"), "access": "Any", "lock": "NoLock", "update": "Preserve",
+                          "fields": [{"k": "reserved", "bits": 8}, {"k": "reserved", "bits": 0, "bitsw": vlib.le(v, 8)}]}, tag="field_reserved_wide/%d" % v))
     # bodies of 2^28 bytes built for real (about 1 GiB peak each), through every length-prefixed emitter: well below the
     # limit, where only the outer object exceeds it, and where the inner buffer already does
     kinds = ["BufferData", "Package", "VarPackage", "BufferTerm", "Device", "Scope", "Method", "PowerResource", "If", "Else", "While"]
